@@ -359,3 +359,120 @@ func (v *vdrRun) guardChecks() {
 		}
 	}
 }
+
+// hfsChecks: the hypotheses of removed_in_place_or_nothing_fork on REAL forks.  The
+// chain of guarded directories is derived here from the directory naming alone (node
+// directories from the pipestance directory down, the fork directory, every job
+// directory with files/ and tmp/) — not taken from the code —, the links of the file
+// system are found by an independent lstat walk of the node directory (and an lstat of
+// the directories above it), the walk root is a job's files directory with its lstat'ed
+// tree.  The driver must find the tree well-formed and `hfsB` true, and its `refusedBy`
+// over this chain must be the verdict of the real Fork.vdrAcrossSymlink.
+func (v *vdrRun) hfsChecks() {
+	if v.r == nil || v.r.ps == nil {
+		return
+	}
+	n := 0
+	for _, g := range v.r.ps.VerifVdrGuards() {
+		if (v.reloc == nil && n >= 3) || n >= 12 {
+			break
+		}
+		forkDir := g.Path
+		nodeDir := path.Dir(forkDir)
+		if !strings.HasPrefix(nodeDir, v.psdir+"/") {
+			continue
+		}
+		var nodeDirs []string
+		for d := nodeDir; d != v.psdir && strings.HasPrefix(d, v.psdir+"/"); d = path.Dir(d) {
+			nodeDirs = append(nodeDirs, d)
+		}
+		// job directories by name, from the listing of the fork directory (through a link, if the fork directory is one)
+		var jobDirs []string
+		if names, err := os.ReadDir(forkDir); err == nil {
+			for _, de := range names {
+				nm := de.Name()
+				if !(strings.HasPrefix(nm, "chnk") || strings.HasPrefix(nm, "split") || strings.HasPrefix(nm, "join")) {
+					continue
+				}
+				st, err := os.Lstat(path.Join(forkDir, nm))
+				if err != nil {
+					continue
+				}
+				if strings.Contains(nm, "-u") || (st.IsDir() && st.Mode()&os.ModeSymlink == 0) {
+					jobDirs = append(jobDirs, path.Join(forkDir, nm))
+				}
+			}
+		}
+		sort.Strings(jobDirs)
+		// the links of the file system: above the node directory, and everything below it (not following links)
+		links := map[string]string{}
+		note := func(p string) {
+			if st, err := os.Lstat(p); err == nil && st.Mode()&os.ModeSymlink != 0 {
+				t, _ := os.Readlink(p)
+				if t == "" {
+					t = "?"
+				}
+				links[p] = t
+			}
+		}
+		for _, d := range nodeDirs {
+			note(d)
+		}
+		filepath.Walk(nodeDir, func(p string, info os.FileInfo, err error) error {
+			if err == nil && info.Mode()&os.ModeSymlink != 0 {
+				note(p)
+			}
+			return nil
+		})
+		// a walk root: the files directory of the first job directory that has one (reached through links, if any)
+		root := ""
+		for _, j := range jobDirs {
+			if st, err := os.Stat(path.Join(j, "files")); err == nil && st.IsDir() {
+				root = path.Join(j, "files")
+				break
+			}
+		}
+		if root == "" {
+			continue
+		}
+		flat := map[string]vdrEnt{}
+		if st, err := os.Lstat(root); err == nil && st.Mode()&os.ModeSymlink == 0 {
+			flat = lstatTree(root)
+		}
+		var ents []string
+		var lp []string
+		for p := range links {
+			lp = append(lp, p)
+		}
+		sort.Strings(lp)
+		for _, p := range lp {
+			ents = append(ents, hx(p)+":"+hx(links[p]))
+		}
+		fs := "."
+		if len(ents) > 0 {
+			fs = strings.Join(ents, ";")
+		}
+		hexList := func(xs []string) string {
+			if len(xs) == 0 {
+				return "."
+			}
+			o := make([]string, len(xs))
+			for i, x := range xs {
+				o[i] = hx(x)
+			}
+			return strings.Join(o, ",")
+		}
+		v.res.Checks = append(v.res.Checks, VdrModelCheck{Name: "hfs_on_fork",
+			Req:    []string{"C04.hfs", fs, hexList(nodeDirs), hx(forkDir), hexList(jobDirs), hx(root), vwEncode(vwFromFlat(flat, ""))},
+			Expect: fmt.Sprintf("wf=true hfs=true refused=%v", g.Refused),
+			What: "fork " + g.Fqname + ": the hypotheses of removed_in_place_or_nothing_fork (tree well-formed, hfsB over the chain derived from the directory naming) on the independently lstat'ed file system, and refusedBy over that chain against the real Fork.vdrAcrossSymlink"})
+		n++
+		v.hist("hfs-on-fork")
+		if len(links) > 0 {
+			v.hist("hfs-on-fork-with-links")
+		}
+		if g.Refused {
+			v.hist("hfs-on-refused-fork")
+		}
+	}
+}
